@@ -622,6 +622,43 @@ class Desugarer:
                     if self.expand_value(B, bi, t, kind, closes):
                         return True
                 continue
+            if _is(callee, ('Try::branch',)) and len(t['args']) == 1 and t['target'] is not None and \
+                    not t.get('desugared_try'):
+                # `expr?` on an Option / Result: branch() is Continue(payload) for Some/Ok and
+                # Break(residual) otherwise - written out so that the caller's match on it is threaded
+                ty0 = (t.get('targs') or [''])[0]
+                is_opt = ty0.startswith('std::option::Option<') or '<std::option::Option' in t.get('full', '')
+                is_res = ty0.startswith('std::result::Result<') or '<std::result::Result' in t.get('full', '')
+                if is_opt or is_res:
+                    span = t['span']
+                    CF = 'std::ops::ControlFlow'
+                    recv = B.local(ty0 or '_')
+                    adt, variants = (OPT, OPTION_VARIANTS) if is_opt else (RES, RESULT_VARIANTS)
+                    pos_name, pos_idx = ('Some', 1) if is_opt else ('Ok', 0)
+                    x = B.local('_')
+                    cont = B.block([assign(x, use(mv(recv, *downcast(pos_name, pos_idx, adt))), span),
+                                    assign_place(t['dest'], agg_variant(CF, 'Continue', [mv(x)]), span)],
+                                   goto(t['target'], span))
+                    if is_opt:
+                        res = B.local('std::option::Option<std::convert::Infallible>')
+                        brk = B.block([assign(res, agg_variant(OPT, 'None', []), span),
+                                       assign_place(t['dest'], agg_variant(CF, 'Break', [mv(res)]), span)],
+                                      goto(t['target'], span))
+                    else:
+                        e = B.local('_')
+                        res = B.local('std::result::Result<std::convert::Infallible, _>')
+                        brk = B.block([assign(e, use(mv(recv, *downcast('Err', 1, RES))), span),
+                                       assign(res, agg_variant(RES, 'Err', [mv(e)]), span),
+                                       assign_place(t['dest'], agg_variant(CF, 'Break', [mv(res)]), span)],
+                                      goto(t['target'], span))
+                    st, sw = self.discr_switch(B, recv, adt, variants,
+                                               [[pos_idx, cont], [1 - pos_idx, brk]], span)
+                    B.blocks[bi] = dict(B.blocks[bi], stmts=B.blocks[bi]['stmts'] + [assign(recv, use(t['args'][0]), span)] + st,
+                                        term=sw)
+                    B._defs = None
+                    B.expanded.append('?')
+                    return True
+                continue
             kind = _is(callee, SCOPED)
             if kind and len(t['args']) == 2 and t['target'] is not None:
                 clos = self.closure_of(B, t['args'][1])
@@ -719,7 +756,7 @@ def split_switch_operands(j):
             continue
         tk = bx['term']['k']
         sym = {}
-        if tk == 'goto':
+        if tk in ('goto', 'drop'):
             for si, st in enumerate(bx['stmts']):
                 if st['k'] != 'assign' or st['lhs']['p']:
                     continue
@@ -731,13 +768,12 @@ def split_switch_operands(j):
                         and rv['op']['place']['l'] in sym:
                     s0 = sym[rv['op']['place']['l']]
                     sym[l] = s0[:3] + (s0[3] or ndefs.get(l, 0) > 1,)
-                elif rv['k'] in ('use', 'un', 'bin', 'cast', 'discr') and l not in user:
+                elif rv['k'] in ('use', 'un', 'bin', 'cast', 'discr'):
                     sym[l] = ('stmt', si, l, ndefs.get(l, 0) > 1)
                 else:
                     sym.pop(l, None)
             cur = bx['term']['target']
-        elif tk == 'call' and not bx['term']['dest']['p'] and bx['term'].get('target') is not None \
-                and bx['term']['dest']['l'] not in user:
+        elif tk == 'call' and not bx['term']['dest']['p'] and bx['term'].get('target') is not None:
             sym[bx['term']['dest']['l']] = ('call', None, bx['term']['dest']['l'],
                                             ndefs.get(bx['term']['dest']['l'], 0) > 1)
             cur = bx['term']['target']
